@@ -787,7 +787,23 @@ class BinaryOp(Expr):
         return result
 
     def _eval_string(self):
-        return self.left.eval() + self.right.eval()
+        left = self.left.eval()
+        right = self.right.eval()
+        if self.op == Operator.ADD:
+            return left + right
+        if self.op.is_comparison:
+            # compared the way the machine compares two strings
+            result = {
+                Operator.CMP_EQ: left == right,
+                Operator.CMP_NE: left != right,
+                Operator.CMP_LT: left < right,
+                Operator.CMP_GT: left > right,
+                Operator.CMP_LE: left <= right,
+                Operator.CMP_GE: left >= right,
+            }[self.op]
+            return -1 if result else 0
+        raise EvalError(
+            f'Operator {self.op.name} cannot be applied to strings')
 
     def _qb_mod(self, a, b):
         a = int(round(a))
